@@ -300,6 +300,8 @@ def main():
     args = sys.argv[1:]
     if len(args) < 2: raise SystemExit(__doc__)
     pid, tier = args[0], args[1]
+    if tier == '--replay':
+        return replay_file(pid, args[2])
     only = None; keep = False; jobs = None
     if '--only' in args: only = args[args.index('--only') + 1].split(',')
     if '--keep' in args: keep = True
@@ -318,6 +320,24 @@ def main():
         if not keep: shutil.rmtree(work, ignore_errors=True)
         else: log('work dir kept:', work)
     sys.exit(status)
+
+def replay_file(pid, path):
+    """re-run a recorded counterexample: the harness program (generated C + models) is rebuilt from /repo's current tree with gcc and fed the recorded inputs"""
+    rec = json.load(open(path)); spec = load_spec(pid)
+    work = tempfile.mkdtemp(prefix='verif-replay-%s-' % pid)
+    try:
+        for g in spec['groups']:
+            insts = [i for i in g['instances'] if i['name'] == rec['instance']]
+            if not insts: continue
+            g = dict(g); g['instances'] = insts; insts[0].setdefault('cdefs', {}).update(rec.get('cdefs', {}))
+            grp = Group(spec, g, work); grp.build()
+            rep, txt = native_replay(grp, insts[0], rec['inputs'])
+            print('replay of %s/%s: %s (%s)' % (pid, rec['instance'], 'REPRODUCED: ' + str(rec.get('failing')) if rep else 'not reproduced', txt.strip()))
+            if rep: print('VIOLATION property=%s replay=%s' % (pid, path))
+            sys.exit(1 if rep else 0)
+        print('instance %s not found' % rec['instance']); sys.exit(2)
+    finally:
+        shutil.rmtree(work, ignore_errors=True)
 
 def check(pid, tier, seed, spec, known, fixed, work, only, jobs, t_start):
     groups = []
